@@ -273,8 +273,8 @@ def groups(tier):
             gs.append({"name": "levels-%s-%s" % (db, opt), "fn": "check_lvl", "shape": {"db": db, "opt": opt, "S": 2, "trange": [0, n2]},
                        "cond_timeout": 1800.0, "path_timeout": 120.0, "weight": 4 * n2, "expect_space": 4 * n2})
     if tier == "thorough":
-        for db in ("base", "forget", "forest"):
-            for lo in range(0, n2, 4):
+        for db in ("base", "forest"):
+            for lo in range(0, n2, 16):  # tables 0-3, 16-19, 32-35, 48-51: two interruptions square the number of schedules
                 gs.append({"name": "interrupt2-%s-plain-t%d" % (db, lo), "fn": "check_int2",
                            "shape": {"db": db, "opt": "plain", "S": 2, "trange": [lo, min(n2, lo + 4)]},
                            "cond_timeout": 3000.0, "path_timeout": 120.0, "weight": 4000})
@@ -296,7 +296,7 @@ def meta(tier):
         "bounds": {"quick": "64 two-state tables x 4 (database, pack) combinations (default: plain/inferral, memory-saving: inferral, forest: "
                             "plain); one late clock reading at every reading position of the run "
                             "(time limit strikes after every reachable work packet); pickle at the interruption and after 0..3 levels",
-                   "thorough": "7 packs, plus two interruptions (two late readings) for the plain pack"}[tier],
+                   "thorough": "7 packs, plus two interruptions (two late readings) for the plain pack on 16 of the tables (default and forest database)"}[tier],
     })
     m["outside"] = m["outside"] + ["crashes inside a work packet (the property speaks of the time limit and of pickling between packets)"]
     m["stubs"] = m["stubs"] + ["CombinatorialSpecificationSearcher._expand is wrapped (class level) to log the work-packet stream"]
